@@ -81,6 +81,18 @@ def run(ctx):
             rng.shuffle(extra)
             for e in extra:
                 sh.insert(rng.randint(0, len(sh)), ('stmt', [e]))
+        if rng.random() < 0.4:
+            # function calls in values: calc() over variables defined through other variables, functions lesscpy does not define (less.js
+            # names among them) with colour / percentage arguments at their boundaries, followed or not by another value
+            j = rng.randrange(99)
+            fn = rng.choice(['fade', 'tint', 'shade', 'fadein', 'contrast', 'alpha', 'clamp', 'min', 'translate', 'drop-shadow'])
+            amt = rng.choice(['100%', '0%', '50%', '100', '0', '1', '0.5'])
+            tail = rng.choice(['', ' none', ' 1px'])
+            lines = ['@gutw%d: %s;\n@gut%d: @gutw%d;\n@col%d: %s;\n' % (j, rng.choice(['10px', '10%', '2em']), j, j, j, rng.choice(['#123456', '#abc', 'red'])),
+                     '.fn%d { width: calc(100%% - @gut%d); margin: -webkit-calc(@gut%d * 2); color: %s(@col%d, %s)%s; }\n' % (j, j, j, fn, j, amt, tail)]
+            at = rng.randint(0, len(sh))
+            for k2, e in enumerate(lines):
+                sh.insert(at + k2, ('stmt', [e]))
         if S.sel_count(sh) > 30:
             continue
         cases.append({'sheet': sh, 'text': S.show(sh, S.Layout(rng)), 'o1': rng.choice(SC.ALL_OPTS), 'o2': rng.choice(SC.ALL_OPTS),
